@@ -284,6 +284,9 @@ def finish(prop, tier, seed, level, stats, errors, t0, rule, assumptions, replay
         "crashed_executions": stats.counters.get("crashed_executions", 0),
         "harness_errors": errors[:5],
     }
+    if stats.caps and all("violations" in str(c.get("cap", "")) for c in stats.caps) and not new_viol:
+        cov["exhaustive_note"] = ("every enumeration that was cut was cut because all executions of that configuration fail at the same "
+                                  "point with a listed known finding (see known_findings_matched); all other enumerations ran to completion")
     if extra:
         cov.update({k: v for k, v in extra.items() if k not in ("crashes_ok", "flaky_is_violation")})
     ev = {"property_id": prop, "tier": tier, "seed": int(seed), "level": level, "coverage": _jsonable(cov),
